@@ -22,6 +22,7 @@ only `graph=True` is used, so large lengths allocate nothing.
 """
 import ast
 import json
+import os
 import re
 
 import numpy as np
@@ -378,22 +379,54 @@ EXTRA_CALLS = [
 ]
 
 
-def check_description(ctx, sc, thorough):
-    """All size assignments of one description: grammar (T-str, Lean and Python) and size-genericity (oracle)."""
+_WORK = []      # (SizedCall, assignments) per description; read by the forked emission workers
+
+
+def _emit_worker(idx):
+    """Emission of all texts of one description (the expensive part: one full trace per size assignment), in a worker
+    process.  -> (backend used, [(label, assignment, text | None, exception class name | None)])"""
+    sc, assigns = _WORK[idx]
+    for attempt in (0, 1):
+        out = []
+        for label, a in assigns:
+            try:
+                out.append((label, a, sc.text(a), None))
+            except Exception as ex:
+                out.append((label, a, None, type(ex).__name__))
+                if label == "base":
+                    break
+        if out and out[0][2] is None and sc.backend != "numpy" and attempt == 0:
+            first_err = out[0][3]
+            sc.backend = "numpy"       # the chosen backend does not implement the operation: same description on numpy
+            continue
+        break
+    return sc.backend, out, (first_err if attempt == 1 else None)
+
+
+def check_description(ctx, sc, thorough, pre=None):
+    """All size assignments of one description: grammar (T-str, Lean and Python) and size-genericity (oracle).  `pre` =
+    texts already emitted by a worker process for exactly these assignments."""
     rng = ctx.rng
     base = dict(sc.axes)
-    assigns = [("base", base)] + variants(sc, rng, thorough)
+    if pre is None:
+        assigns = [("base", base)] + variants(sc, rng, thorough)
+        pre = []
+        for label, a in assigns:
+            try:
+                pre.append((label, a, sc.text(a), None))
+            except Exception as ex:
+                pre.append((label, a, None, type(ex).__name__))
+                if label == "base":
+                    break
     emitted = []
-    for label, a in assigns:
-        try:
-            e = Emitted(sc.text(a))
-        except Exception as ex:
+    for label, a, text, err in pre:
+        if text is None:
             if label == "base":
-                ctx.count("base-raised:" + type(ex).__name__)
+                ctx.count("base-raised:" + err)
                 return "base-raised"
-            ctx.count("variant-raised:" + type(ex).__name__)
+            ctx.count("variant-raised:" + err)
             continue
-        emitted.append((label, a, e))
+        emitted.append((label, a, Emitted(text)))
         ctx.count("variant:" + label)
     # grammar
     lean = None
@@ -468,7 +501,7 @@ def stb_tie(ctx, n):
             rec = cap.records[-1]
             ei, eo = rec["solved"][-1]
             gj, _ = graphcap.graph_to_json(rec["pre"])
-            r = drv.ask({"kind": "stb_model", "exprs_in": ei, "exprs_out": eo, "graph": gj})
+            r = drv.ask({"kind": "stb_model", "exprs_in": ei, "exprs_out": eo, "graph": gj, "instance": a is assigns[0]})
             if "err" in r["model"]:
                 ctx.count("stb:model-" + r["model"]["err"][:32])
                 break
@@ -537,6 +570,9 @@ def run(ctx):
     calls = calls[: (8 if ctx.quick else len(calls))]
     i = 0
     shown = 0
+    # all descriptions and their size assignments first (one PRNG stream), then every text in parallel worker processes
+    del _WORK[:]
+    jobs = []
     while i < n_desc:
         i += 1
         if calls:
@@ -551,10 +587,21 @@ def run(ctx):
             ctx.count("unsizable:" + type(ex).__name__)
             ctx.case(None, False)
             continue
-        st = check_description(ctx, sc, not ctx.quick)
-        if st == "base-raised" and backend != "numpy":
-            sc.backend = backend = "numpy"
-            st = check_description(ctx, sc, not ctx.quick)
+        _WORK.append((sc, [("base", dict(sc.axes))] + variants(sc, rng, not ctx.quick)))
+        jobs.append(call)
+    import multiprocessing
+    import time as _time
+    _t0 = _time.time()
+    with multiprocessing.get_context("fork").Pool(min(14, os.cpu_count() or 2)) as pool:
+        emitted_all = pool.map(_emit_worker, range(len(_WORK)), chunksize=1)
+    timing = ctx.extra.setdefault("timing_s", {})
+    timing["emit_parallel"] = round(_time.time() - _t0, 1)
+    _t0 = _time.time()
+    for (sc, _assigns), call, (backend, pre, first_err) in zip(list(_WORK), jobs, emitted_all):
+        if first_err is not None:
+            ctx.count("base-raised:" + first_err)     # on the backend first chosen; the description was re-run on numpy
+        sc.backend = backend
+        st = check_description(ctx, sc, not ctx.quick, pre=pre)
         ctx.count("family:" + call["family"])
         ctx.count("status:" + st)
         ctx.count("backend:" + str(backend))
@@ -569,11 +616,16 @@ def run(ctx):
                 pass
         if len(ctx.violations) >= 4:
             break
+    timing["analyse"] = round(_time.time() - _t0, 1)
+    _t0 = _time.time()
     if ctx.driver_ok:
         stb_tie(ctx, n_stb)
+        timing["stb_tie"] = round(_time.time() - _t0, 1)
+        _t0 = _time.time()
         # the lowering models of elementwise operations and reductions (Generic/LowerOps.lean) against traced graphs
         from props import lower_tie
         lower_tie.lower_tie(ctx, n_stb, SizedCall, variants)
+        timing["lower_tie"] = round(_time.time() - _t0, 1)
     ctx.extra["traces_validated_against_impl"] = ctx.extra.get("texts_checked", 0) + ctx.extra.get("graphs_validated", 0)
 
 
